@@ -17,7 +17,7 @@ pub open spec fn dec_sv_item(s: Seq<u8>) -> Option<((ClientID, u32), nat)> {
         None => None,
         Some((client, k)) => match dec_u32(s.skip(k as int)) {
             None => None,
-            Some((clock, k2)) => Some(((ClientID(client), clock), k + k2)),
+            Some((clock, k2)) => if client_id_53bit(client) { Some(((ClientID(client), clock), k + k2)) } else { None },
         },
     }
 }
@@ -49,8 +49,8 @@ pub proof fn lemma_sv_item_bounded()
 
 impl Decode for StateVector {
     // (a) TOTAL + PROGRESS: every iteration consumes >= 2 bytes (invariant `decoder.rest().len() + 2 * i <= s1.len()`)
-    //     `ClientID::new(client)` on an unchecked u64                                                -- FINDING F-DC-4 (see unit.rs)
-    // (b) ALLOCATION BUDGET: the capacity request goes through vx_budget                             -- FINDING F-DC-3 (see unit.rs)
+    //     the client id goes through `ClientID::decode` (F-DC-4, repaired): a value >= 2^53 is an error
+    // (b) ALLOCATION BUDGET: the capacity request goes through vx_budget (F-DC-3, repaired: capped at 1024)
     // (c) RESULT SHAPE: at most (consumed bytes) / 2 clients
     // (d) for EVERY decoder (only `Read` methods are used): equality with `dec_sv`
     /*@extract yrs/src/state_vector.rs | impl Decode for StateVector | fn decode | label=sv_decode | rules=SUB(from=HashMap::with_capacity_and_hasher;;to=vx_budget(decoder).map_with_capacity_and_hasher::<ClientID, u32>) SUB(from=BuildHasherDefault::default();;to=VxHasher)
@@ -109,13 +109,17 @@ impl Decode for StateVector {
             lemma_skip_skip_all(sa, dec_u64(sa)->Some_0.1);
             lemma_dec_u32_bounded(sb);
         }
+    @before 1 `stmt:call insert`
+        proof {
+            lemma_suffix_skip(sb, dec_u32(sb)->Some_0.1);
+            lemma_suffix_step(s1, sb, decoder.rest());
+            lemma_suffix_step(s0, sb, decoder.rest());
+        }
     @after 1 `stmt:call insert`
         proof {
             let cid = ClientID(client);
             lemma_map_of_push(items, cid, clock);
             items = items.push((cid, clock));
-            lemma_suffix_skip(sb, dec_u32(sb)->Some_0.1);
-            lemma_suffix_step(s1, sb, decoder.rest());
             assert(dec_sv_item(sa) == sv_item()(sa));
             kk = kk + dec_sv_item(sa)->Some_0.1;
         }
